@@ -83,10 +83,10 @@ func genC11(r *simrt.RNG) *Case {
 	}
 	oddNames(r, &pl)
 	nc := r.Range(1, 4)
-	if r.Intn(12) == 0 {
+	if rare(r, 12) {
 		nc = r.Range(5, 9) // state that only goes wrong after several cycles
 	}
-	long := r.Intn(40) == 0 && pl.Chunk < 100
+	long := rare(r, 40) && pl.Chunk < 100
 	if long {
 		nc = r.Range(17, 40) // slow leaks: many short cycles on one sorter
 	}
@@ -241,7 +241,7 @@ func genC12(r *simrt.RNG) *Case {
 	case 1:
 		n = pl.Chunk*r.Range(1, 5) + 1 // short last chunk
 	}
-	if r.Intn(10) == 0 && pl.Chunk <= 4 {
+	if rare(r, 10) && pl.Chunk <= 4 {
 		n = pl.Chunk*r.Range(7, 14) + r.Intn(pl.Chunk+1) // many chunks: pool and hand-off channel cycle several times
 	}
 	pl.Cycles = []MCycle{{Keys: genKeys(r, n), Drain: -1}}
